@@ -137,10 +137,11 @@ class G:
 
     def build(self, *roots, **gbkw):
         gb = self.ip.call(self.GB, [], {})
+        bkw = {"copy": gbkw.pop("copy")} if "copy" in gbkw else {}  # argument of build_model(); everything else is a builder attribute
         for k, v in gbkw.items():
             self.ip.setattr(gb, k, v)
         self.ip.call(method(self.ip, gb, "add"), list(roots), {})
-        return self.ip.call(method(self.ip, gb, "build_model"), [], {})
+        return self.ip.call(method(self.ip, gb, "build_model"), [], bkw)
 
 
 def shape_hier(g, per_obs=True):
@@ -187,7 +188,8 @@ def shape_direct(g, per_obs=True):
     GraphBuilder.transform() builds with _transform_back, or a hand-written Calc(f, v.value_node) - feeding the likelihood"""
     b = g.var("b", dist=g.dist("Pb"), parameter=True)
     cvar = g.var("c", dist=g.dist("Pc", per_obs=per_obs), parameter=True)
-    direct = g.calc("f_direct", b.f["_value_node"], name="direct")  # depends on b ONLY, so that nothing else refreshes it
+    flag = g.ip.call(g.Value, [True], {"_name": "use_flag"})  # a boolean option as a node value: the python singleton True
+    direct = g.calc("f_direct", b.f["_value_node"], flag, name="direct")  # depends on b (and a constant option) ONLY, so that nothing else refreshes it
     y = g.var("y", dist=g.dist("Lik", direct, cvar), observed=True)
     return [y]
 
